@@ -6,8 +6,9 @@
 (* Enum declaration record:                                                *)
 (*  [ name, n, exh \in {"true","false","conditional","omitted"},            *)
 (*    variants : Seq([ name, d : Seq(bit)  (the discriminant as a bit set), *)
-(*                     cfg \in {"none","on","off"}   (#[cfg] gate, and      *)
-(*                         whether the gate is active in this build),       *)
+(*                     cfg \in {"none","on","off","onoff","offon"} (#[cfg]    *)
+(*                         gates -- one, or two of which one is false -- and  *)
+(*                         whether the variant is compiled in this build),    *)
 (*                     form \in {"lit","missing","expr"} ]) ]               *)
 (***************************************************************************)
 EXTENDS Naturals, Sequences, FiniteSets
